@@ -136,6 +136,32 @@ def verdicts(body):
     return out
 
 
+def check_crossbeam_setter_sends(ctx, rule):
+    """the crossbeam Uni channel's setter-based sends run the setter BEFORE they own room (the fullness test is only a pre-check): once the setter ran the event must get in,
+    so the re-send is retried without bound -- `spinning_forever` in send_with, `retry_with_async(..).yielding_forever().await` in send_with_async.  A bounded retry
+    (`*_until_timeout`, `*_until`) whose outcome is ignored drops the event while the send still answers Ok; a spinning retry inside the async variant busy-waits inside one
+    poll() -- on an executor thread shared with the consumer nothing is ever consumed, and every other task on that thread is blocked behind a suspended-and-resumed send."""
+    fx = ctx.fx
+    path = R.CHANNELS["uni.movable.crossbeam"]
+    n = 0
+    for en, want, is_async in (("send_with", "spinning_forever", False), ("send_with_async::{closure#0}", "yielding_forever", True)):
+        k = f"{path} as {R.T_PROD}::{en}"
+        fam = [f for f in fx.fns if f["key"] == k or f["key"].startswith(k + "::{closure#")]
+        names = []
+        for f in fam:
+            for blk in f["blocks"]:
+                t = blk["term"]
+                if t[0] == "Call" and "keen_retry" in (t[1].get("f") or "") + (t[1].get("resolved") or ""):
+                    names.append(t[1].get("fname"))
+        strategies = [x for x in names if x and (x.startswith(("spinning_", "yielding_", "sleeping_")) or "until" in x or x.endswith("_forever"))]
+        ok = strategies == [want]
+        if is_async: ok = ok and "retry_with_async" in names and "retry_with" not in names
+        n += 1
+        ctx.ob(rule, f"{k}|re-send-is-retried-without-bound", ok and bool(fam), f"{fam[0]['file']}:{fam[0]['line']}" if fam else "",
+               f"retry strategy calls {strategies or names}; required: exactly `{want}`" + (" on the async retry (`retry_with_async`), never a spinning one" if is_async else ""))
+    return n
+
+
 def check_read_before_release(ctx, rule):
     """consumers of the two rings: the slot is copied out (ptr::read) before it is released for reuse, once each (shared with C02 as R02.8)"""
     fx = ctx.fx
@@ -184,6 +210,7 @@ def check(ctx):
         for (pb, pc) in pubs:
             ctx.ob("R01.1", f"{k}|publish-only-reserved", some_t is not None and body.dominates(some_t, pb) and not util.in_loop(body, pb), body.loc(pb), "publication happens once, on the reserved path only")
     check_read_before_release(ctx, "R01.1")
+    check_crossbeam_setter_sends(ctx, "R01.2")
     check_zero_copy_getters(ctx, "R01.1")
     # who moves payloads out of ring slots
     for f in fx.fns:
@@ -300,6 +327,9 @@ def check(ctx):
             return ok
     util.guarded(ctx, C13.check, OnlyDealloc(ctx, "R01.10"))
     if not getattr(ctx, "deferred_infra", None): ctx.floor("R01.10", 4)
+    # 'one owner per pool slot' across the OgreUnique -> OgreArc conversion (shared with C14 R14.5 / R14.8): a conversion that lets the unique handle's Drop run frees
+    # the slot the new shared handle still owns -- the slot is handed out twice (two accepted events in one slot) and freed twice
+    __import__("importlib").import_module("props.C14").check_unique_to_shared(ctx, "R01.10")
     ctx.floor("R01.1", 20); ctx.floor("R01.2", 25); ctx.floor("R01.3", 12); ctx.floor("R01.4", 10); ctx.floor("R01.5", 30)
 
 
